@@ -143,7 +143,11 @@ CHECKS = {
         "rename_back, and alpha_fresh: renaming a local binder together with exactly its references to a fresh name leaves the binder of every "
         "occurrence unchanged under the environment semantics (Props/C07.lean). Oracle on the implementation: edits are whole identifier tokens "
         "spelled with the old name, equal to the references; after applying them every identifier resolves to the same (moved) declaration, syntax "
-        "error counts are unchanged, renaming back restores the text. Module-level symbols, fields and labels are covered by the oracle only (partial)."),
+        "error counts are unchanged, renaming back restores the text. Module-level values (functions, constants, constructors, unqualified imports): "
+        "alpha_fresh_module - with the module's value table as the outermost frame of the environment, respelling an entry and exactly the "
+        "occurrences it captures leaves the binding of every occurrence of every function unchanged (locals that shadow the old name keep "
+        "shadowing, the fresh name captures nothing); resolve_name_refines_module - the implementation's resolve_name (scope arena first, then the "
+        "table) is that environment semantics at every occurrence; renFrame_modFrame. Types, fields and labels are covered by the oracle only (partial)."),
   note=TB + SCOPE, ref="5.C07"),
  "C08": dict(
   technique="Lean 4 decision of the rename table extracted by xlate from rename.rs (rename_accepts_iff) + exhaustive symbol-kind x name matrix",
@@ -166,12 +170,17 @@ CHECKS = {
         "through inference and type-namespace resolution are covered by the oracle only (partial). Occurrences known by construction (records across modules, modules 2-5 path segments deep, labels shared by some variants, prefix operators) must each lead to their declaration; the recorded findings' own inputs are replayed first."),
   note=TB + SCOPE, ref="5.C05, 4.3"),
  "C18": dict(
-  technique="Lean 4 proof that the two code paths (values_names_in_scope, resolve_name) agree, over M-scope + differential through completion",
+  technique="Lean 4 proof that the two code paths (values_names_in_scope, resolve_name) agree, over M-scope, and of what is offered after a dot (M-fields) + differential through completion",
   text=("holes_refine_spec: the local names offered at every expression position are exactly those visible under Gleam's rules, each denoting the "
         "innermost binder; completion_iff_resolvable: a name is offered iff resolve_name resolves it, to that very definition; completion_nodup; "
         "buildValues_keys_nodup (Props/C18.lean). Tie: model vs real completions at every value occurrence of generated workspaces (expected set "
-        "by construction, replacement range = the identifier). Dot-completion (module members / fields) and signatures are not proved; two genuine "
-        "defects recorded (aliased imports rendered under the original name; value/type import clash)."),
+        "by construction, replacement range = the identifier). After a dot (Props/C18Dot.lean over model M-fields of lower_custom_type's retain "
+        "loop and complete_dot's filter): accessor_iff - a label is offered after `value.` exactly when the type has a constructor and every "
+        "constructor declares it with one and the same type; accessors_nodup; moduleDot_iff - after `module.` exactly the public functions and "
+        "the constructors of public types; private_never_offered. Tie: model vs completion triggered by `.` on generated record types (shared / "
+        "partial / differently typed labels, generics, across modules) and modules (private types whose constructors are named like public types, "
+        "constants, aliased and deep imports). Signatures are not proved; two genuine defects recorded (aliased imports rendered under the "
+        "original name; value/type import clash)."),
   note=TB + SCOPE, ref="5.C18, 4.3"),
  "C01": dict(
   technique="Lean 4 proof over the xlate-generated parser/lexer/tree-builder model + differential against parse_module",
